@@ -1,6 +1,6 @@
 (* The LZ compressor model is lossless: any block split, any valid parse per block, any frame parameters. *)
 From Coq Require Import NArith ZArith List Bool Lia.
-From ZV.Codec Require Import Bytes ListLemmas XXH64 Fse Huf Block Frame LzProofs LzContent Encode EncodeProofs EncodeSeq EncodeSeqProofs.
+From ZV.Codec Require Import Bytes ListLemmas XXH64 Fse Huf Block Frame LzProofs FrameProofs LzContent Encode EncodeProofs EncodeSeq EncodeSeqProofs.
 From ZV.Codec Require Import EncodeLzFrame.
 Import ListNotations.
 Local Open Scope N_scope.
@@ -160,7 +160,7 @@ Theorem lz_model_lossless cfg d p dictID pbs ebs z rest :
   pbs <> [] ->
   pblocks_run (c_strict_window cfg) win blockMax (z_init d) pbs = Some (ebs, z) ->
   params_ok p (lenN content) dictID -> c_magicless cfg = fp_magicless p -> win <= c_window_max cfg -> dict_ok d p dictID ->
-  (exists t, decode_frame cfg d (enc_frame p dictID ebs ++ rest) = Ok (content, t, rest)) /\
+  (exists t, decode_frame cfg d (enc_frame p dictID ebs ++ rest) = Ok (content, t, rest) /\ fh_expected p (lenN content) dictID (ft_header t)) /\
   z_hist z = rev content ++ rev' (dict_content d) /\ z_pos z = lenN content.
 Proof.
   intros content win blockMax Hne Hrun Hp Hml Hw Hd.
@@ -172,4 +172,45 @@ Proof.
   split.
   - eapply decode_enc_frame; eauto. destruct ebs; [destruct pbs; [congruence|discriminate]|discriminate].
   - destruct Hext as (_ & Hh & Hpos & _). unfold x_init in Hh, Hpos; cbn [x_hist x_pos] in Hh, Hpos. split; [rewrite <- H1; exact Hh|rewrite <- P1, Hpos; apply N.add_0_l].
+Qed.
+
+(* conformance and truthfulness of model frames: accepted by the STRICT decoder, declared size and checksum are the content's *)
+Theorem lz_model_conformant cfg d p dictID pbs ebs z rest :
+  let content := blocks_content ebs in
+  let win := frame_window p (lenN content) in
+  let blockMax := N.min (N.min win BLOCK_MAX) (c_block_max cfg) in
+  c_strict_window cfg = true -> c_check cfg = true ->
+  pbs <> [] ->
+  pblocks_run true win blockMax (z_init d) pbs = Some (ebs, z) ->
+  params_ok p (lenN content) dictID -> c_magicless cfg = fp_magicless p -> win <= c_window_max cfg -> dict_ok d p dictID ->
+  exists t, decode_frame cfg d (enc_frame p dictID ebs ++ rest) = Ok (content, t, rest) /\
+            (forall v, fh_fcs (ft_header t) = Some v -> v = lenN content) /\
+            (fh_checksum (ft_header t) = true -> ft_checksum t = Some (FrameProofs.low32 (xxh64 content 0))) /\
+            Forall (fun b => bt_rsize b <= blockMax) (ft_blocks t).
+Proof.
+  intros content win blockMax Hs Hc Hne Hrun Hp Hml Hw Hd.
+  rewrite <- Hs in Hrun.
+  destruct (lz_model_lossless cfg d p dictID pbs ebs z rest Hne Hrun Hp Hml Hw Hd) as ((t & Ht & Hexp) & _).
+  exists t. split; [exact Ht|].
+  destruct (FrameProofs.decode_frame_sound _ _ _ _ _ _ Ht) as (_ & Hb & Hf & Hk & _ & _ & _ & _).
+  split; [exact Hf|]. split; [intros H; exact (Hk H Hc)|].
+  destruct Hexp as (Ew & _). fold content in Ew. fold (frame_window p (lenN content)) in Ew. rewrite Ew in Hb. exact Hb.
+Qed.
+
+(* with a dictionary: history and repeat offsets start from it, the frame carries its ID *)
+Theorem lz_model_lossless_dict cfg dc p pbs ebs z rest :
+  let d := Some dc in
+  let content := blocks_content ebs in
+  let win := frame_window p (lenN content) in
+  let blockMax := N.min (N.min win BLOCK_MAX) (c_block_max cfg) in
+  pbs <> [] ->
+  pblocks_run (c_strict_window cfg) win blockMax (z_init d) pbs = Some (ebs, z) ->
+  params_ok p (lenN content) (d_id dc) -> c_magicless cfg = fp_magicless p -> win <= c_window_max cfg ->
+  (exists t, decode_frame cfg d (enc_frame p (d_id dc) ebs ++ rest) = Ok (content, t, rest) /\
+             fh_expected p (lenN content) (d_id dc) (ft_header t)) /\
+  z_hist z = rev content ++ rev' (d_content dc) /\ z_pos z = lenN content.
+Proof.
+  intros d content win blockMax Hne Hrun Hp Hml Hw.
+  apply (lz_model_lossless cfg (Some dc) p (d_id dc) pbs ebs z rest Hne Hrun Hp Hml Hw).
+  cbn [dict_ok]. destruct (fp_noDictID p); [left|right]; reflexivity.
 Qed.
